@@ -48,7 +48,7 @@ RULE = (
 MENU = [0.0, 1.0, 0.77, float("nan"), -1.0, 1e300]
 PAIR_MENU = [float("nan"), -1.0, 1e300]
 BOUNDS = {
-    "quick": {"screens_per_model": 6, "single_row_values": MENU, "pair_values": PAIR_MENU, "n_chunks": [1, 2, 3], "batch_size": 2,
+    "quick": {"screens_per_model": 7, "single_row_values": MENU, "pair_values": PAIR_MENU, "n_chunks": [1, 2, 3], "batch_size": 2,
               "n_thetas": 4, "burnin": 1, "thin": 1,
               "histories": "late results: every view of an unobserved plate taken before set_observed x 7 placeholder values; side operations: "
                            "every concat / combine of the observed view with an unobserved plate (both orders), invert, to_screen, "
@@ -56,10 +56,15 @@ BOUNDS = {
               "interaction_model": "training data = combination rows AND the single-agent table (mean of the observed single-agent wells)",
               "refusals": "every view / plate union with a masked row (and afterwards: the same model given the observed rows == a model that never saw the refused call); "
                           "each observed row x {-0.5, NaN, -1e-46, -1e-60, -5e-324, -1e300}; the same (3 values) after save_h5 / load_h5 and through the train_model command"},
-    "thorough": {"screens_per_model": 6, "single_row_values": MENU, "pair_values": MENU, "n_chunks": [1, 2, 3, 7], "batch_size": 2,
+    "thorough": {"screens_per_model": 7, "single_row_values": MENU, "pair_values": MENU, "n_chunks": [1, 2, 3, 7], "batch_size": 2,
                  "n_thetas": 5, "burnin": 2, "thin": 2, "histories": "as quick", "interaction_model": "as quick"},
 }
 ASSUMPTIONS = [
+    "several add_observations calls on one model: n_obs, training arrays and posterior samples are compared with the one-shot model; the interaction "
+    "model's single-agent table is NOT (the statement quantifies over screens, not over call histories; at the pinned commit a pair measured in "
+    "several calls keeps the mean of the last call only - recorded in DESIGN as an observation); the train_model command hands over all observed "
+    "rows in one call, and its table is judged against the mean over all observed wells",
+
     "the interaction model's transform outside [0.01, 0.99] is undocumented: its y is compared with logit(float32(obs)) only for observations inside that range",
     "the global numpy generator is re-seeded identically before each run of a pair so that a difference can only come from the masked values",
     "training arrays are read through wrapped_model.encode_obs() (the observation point named in the property's anchors)",
@@ -111,6 +116,14 @@ def base_rows(model, idx):
                 ("s0", "u2", (("a", 2.0), ("b", 1.0)), 0.5, False),
                 ("s1", "u3", (("a", 2.0), ("b", 1.0)), 0.5, False),
             ],
+            [   # read-outs above 1 (wells that grew better than the control): documented transform = logit of the value clipped to [0.01, 0.99]
+                ("s0", "o", (("a", 1.0), ("b", 1.0)), 1.08, True),
+                ("s1", "o", (("a", 1.0), (CTL, 0.0)), 1.25, True),
+                ("s0", "o2", (("b", 1.0), ("c", 1.0)), 0.999, True),
+                ("s1", "o2", (("c", 1.0), ("a", 1.0)), 1.0, True),
+                ("s0", "u1", (("a", 1.0), ("c", 1.0)), 0.5, False),
+                ("s1", "u2", (("c", 1.0), ("b", 1.0)), 0.5, False),
+            ],
             [   # every recorded value is exactly 0.0 (complete kill): "is there anything observed" must come from the mask, not the values
                 ("s0", "o", (("a", 1.0), ("b", 1.0)), 0.0, True),
                 ("s1", "o", (("a", 1.0), (CTL, 0.0)), 0.0, True),
@@ -153,6 +166,16 @@ def base_rows(model, idx):
                 ("s0", "o", (("a", 1.0), ("b", 2.0)), 0.45, True),
                 ("s0", "o", (("a", 1.0), ("b", 2.0)), 0.35, True),
             ],
+            [   # two observed plates that both hold single-agent wells of the same (sample, drug): the table is their common mean
+                ("s0", "o1", (("a", 1.0), (CTL, 0.0)), 0.80, True),
+                ("s0", "o1", ((CTL, 0.0), ("b", 1.0)), 0.70, True),
+                ("s0", "o1", (("a", 1.0), ("b", 1.0)), 0.40, True),
+                ("s0", "o2", (("a", 1.0), (CTL, 0.0)), 0.60, True),
+                ("s0", "o2", (("b", 1.0), (CTL, 0.0)), 0.50, True),
+                ("s0", "o2", (("b", 1.0), ("a", 1.0)), 0.30, True),
+                ("s0", "u1", (("a", 1.0), ("b", 1.0)), 0.5, False),
+                ("s0", "u1", (("a", 1.0), (CTL, 0.0)), 0.5, False),
+            ],
             [   # single-agent wells that exist only behind the mask (drug d; drug a for sample s1)
                 ("s0", "o", (("a", 1.0), (CTL, 0.0)), 0.80, True),
                 ("s0", "o", ((CTL, 0.0), ("b", 1.0)), 0.70, True),
@@ -169,7 +192,7 @@ def base_rows(model, idx):
 
 def n_screens(model, tier):
     n = BOUNDS[tier]["screens_per_model"]
-    return min(n, 6 if model == "combo" else 4)
+    return min(n, 7 if model == "combo" else 5)
 
 
 def variants(rows, tier):
@@ -334,7 +357,7 @@ def plan(tier, seed):
     for model in ("combo", "interaction"):
         for idx in range(n_screens(model, tier)):
             rows = base_rows(model, idx)
-            if model == "interaction" and idx == 3:
+            if model == "interaction" and idx == 4:
                 # (the interaction model cannot predict a drug whose single-agent wells are all unobserved, so this screen
                 #  has no pipeline; it is used for the refusals only)
                 items.append({"kind": "refusal", "model": model, "screen": idx})
@@ -611,6 +634,12 @@ def run_cli_item(item, col, tier):
         want = theta_bytes(sampling.sample(lib_model, ThetaHolder(n_thetas=2), seed=5, n_chains=1, chain_index=0, n_burnin=1, thin=1, progress_bar=False))
         col.evaluations += 1
         col.transitions += 1
+        if model == "interaction":
+            th0 = ThetaHolder.load_h5(os.path.join(tmp, "thb.h5")).get_theta(0)
+            msg = compare_lookup(reference_lookup(rows, loaded), [(int(k_[0]), int(k_[1]), float(v_)) for k_, v_ in th0.single_effect_lookup.items()])
+            if msg:
+                col.violation("C04|cli-trains-on-other-data|lookup|interaction", f"posterior samples written by train_model for screen {idx}: {msg}",
+                              {"kind": "cli", "model": model, "screen": idx, "value": 0.5})
         if digest(want) != digest(base):
             col.violation(f"C04|cli-trains-on-other-data|{model}", f"train_model --seed 5 on screen {idx} and the library (same file, same seed, model given the "
                                                                     f"observed rows with the screen's own ids) learn different posterior samples",
